@@ -345,7 +345,7 @@ func (e *Equation) appendValue(buf []byte, v any) []byte {
 	case int64:
 		buf = append(buf, strconv.FormatInt(tv, 10)...)
 	case float64:
-		buf = append(buf, strconv.FormatFloat(tv, 'g', -1, 64)...)
+		buf = appendFloat(buf, tv)
 	case bool:
 		if tv {
 			buf = append(buf, "true"...)
@@ -385,6 +385,21 @@ func escapeSlash(s string) string {
 		b = append(b, c)
 	}
 	return string(b)
+}
+
+// appendFloat appends a float so that it is read back as a float. The
+// shortest form of an integral value such as 2.0 is 2 which would be read as
+// an integer and change the arithmetic, 1 / 2.0 is not 1 / 2.
+func appendFloat(buf []byte, f float64) []byte {
+	start := len(buf)
+	buf = strconv.AppendFloat(buf, f, 'g', -1, 64)
+	for _, b := range buf[start:] {
+		switch b {
+		case '.', 'e', 'E', 'I', 'N': // also +Inf and NaN
+			return buf
+		}
+	}
+	return append(buf, '.', '0')
 }
 
 // String representation of the equation.
